@@ -165,7 +165,8 @@ def check(ctx):
         o.fail(P, 'Buffer.give_part', 'self._buffer.append((self.env.now, self._part))', f'expected exactly one insertion into the storage list on the accept path, found {len(apps)}', file=c.mod.path, line=c.node.lineno)
     else:
         n, cl = apps[0]
-        a = cl.args[0] if cl.args else None
+        from ..norm import subst as _subst
+        a = _subst(cl.args[0], FrameEnv(n.frame)) if cl.args else None       # the entry may be built in a local first
         if not (isinstance(a, ast.Tuple) and len(a.elts) == 2 and N.norm(a.elts[0], FrameEnv(n.frame)).is_({'NOW': 1}) and is_self_attr(a.elts[1], '_part')):
             o.fail(P, 'Buffer.give_part', None, 'the stored entry must be (current time, the accepted part)', node=n)
         else:
